@@ -1,5 +1,5 @@
 (* C18 — the agent makes its node's peers match what the pool says. *)
-From VP Require Import Base Agent AgentProofs.
+From VP Require Import Base Nonce Store Agent AgentProofs ReqHosts ReqHostsProofs Compose.
 
 (* after a keep-alive round exactly the peers the pool declared invalid — and, with strict
    peering, the local peers the pool does not list as active under the same host — have been
@@ -68,3 +68,21 @@ Example c18_example :
   = ([CRemoveTrusted 5; CDisconnect 5; CRemoveTrusted 2; CDisconnect 2; CRemoveTrusted 3; CDisconnect 3;
       CPeerRequest 1 7; CConnect 41; CConnect 42]%N, AOk).
 Proof. vm_compute. reflexivity. Qed.
+
+(* the agent's keep-alive round put together with the pool's answer to its peer request (the
+   end-to-end cases run exactly this composition on the real Agent and the real pool): every host
+   the client's node is told to connect to was sent the whitelist instruction for that client and
+   acknowledged it, is connected, is not the client and not already its peer; and the node is told
+   to connect to no more hosts than it was short of *)
+Theorem c18_round_connects_only_whitelisted :
+  forall (cfg : acfg) (locals active invalid : list pref) (drop_errors : bool)
+    (st : sstate) (reg : registry) (maxh : Z) (self : N) (chosen : list N) (outs : amap outcome) (uri_of : N -> N),
+  let need := ac_target cfg - Z.of_nat (length active) in
+  let out := request_hosts st reg maxh self need chosen outs in
+  let calls := fst (update_round cfg true locals (UpdateOk active invalid) drop_errors (peer_reply_of uri_of out) None) in
+  (forall u, In (CConnect u) calls ->
+     exists h, u = uri_of h /\ In h (rh_calls out) /\ is_ack (outcome_of outs h) = true /\
+               h <> self /\ amem h reg = true /\ In h chosen /\ memb h (akeys (peers_of st self)) = false) /\
+  (Z.of_nat (length (filter (fun c => match c with CConnect _ => true | _ => false end) calls)) <= Z.max 0 need).
+Proof. exact round_connects_only_whitelisted. Qed.
+Print Assumptions c18_round_connects_only_whitelisted.
